@@ -2673,83 +2673,6 @@ void Analyser::AnalyserImpl::analyseModel(const ModelPtr &model)
         voiInternalVariable->mDependencies.clear();
     }
 
-    // Check that the variables that were marked as external were rightly so.
-
-    for (const auto &primaryExternalVariable : primaryExternalVariables) {
-        std::string description;
-        auto isVoi = (mModel->mPimpl->mVoi != nullptr)
-                     && (primaryExternalVariable.first == mModel->mPimpl->mVoi->variable());
-        auto equivalentVariableCount = primaryExternalVariable.second.size();
-        auto hasPrimaryVariable = std::find(primaryExternalVariable.second.begin(),
-                                            primaryExternalVariable.second.end(),
-                                            primaryExternalVariable.first)
-                                  != primaryExternalVariable.second.end();
-
-        if (isVoi || (equivalentVariableCount > 1) || !hasPrimaryVariable) {
-            description += (equivalentVariableCount == 2) ? "Both " : "";
-
-            for (size_t i = 0; i < equivalentVariableCount; ++i) {
-                if (i != 0) {
-                    description += (i != equivalentVariableCount - 1) ? ", " : " and ";
-                }
-
-                auto variableString = ((i == 0) && (equivalentVariableCount != 2)) ?
-                                          std::string("Variable") :
-                                          std::string("variable");
-
-                description += variableString + " '" + primaryExternalVariable.second[i]->name()
-                               + "' in component '" + owningComponent(primaryExternalVariable.second[i])->name()
-                               + "'";
-            }
-
-            Issue::ReferenceRule referenceRule;
-
-            if (isVoi) {
-                description += (equivalentVariableCount == 1) ?
-                                   " is marked as an external variable, but it is" :
-                                   " are marked as external variables, but they are";
-
-                if ((equivalentVariableCount == 1) && hasPrimaryVariable) {
-                    description += " the";
-                } else {
-                    description += " equivalent to variable '" + primaryExternalVariable.first->name()
-                                   + "' in component '" + owningComponent(primaryExternalVariable.first)->name()
-                                   + "', the primary";
-                }
-
-                description += " variable of integration which cannot be used as an external variable.";
-
-                referenceRule = Issue::ReferenceRule::ANALYSER_EXTERNAL_VARIABLE_VOI;
-            } else {
-                description += (equivalentVariableCount == 1) ?
-                                   " is marked as an external variable, but it is not a primary variable." :
-                                   " are marked as external variables, but they are";
-                description += (equivalentVariableCount > 2) ? " all" : "";
-                description += (equivalentVariableCount == 1) ? "" : " equivalent.";
-                description += " Variable '" + primaryExternalVariable.first->name()
-                               + "' in component '" + owningComponent(primaryExternalVariable.first)->name()
-                               + "' is";
-                description += hasPrimaryVariable ?
-                                   " the" :
-                               (equivalentVariableCount == 1) ?
-                                   " its corresponding" :
-                                   " their corresponding";
-                description += " primary variable and will therefore be the one used as an external variable.";
-
-                referenceRule = Issue::ReferenceRule::ANALYSER_EXTERNAL_VARIABLE_USE_PRIMARY_VARIABLE;
-            }
-
-            auto issue = Issue::IssueImpl::create();
-
-            issue->mPimpl->setDescription(description);
-            issue->mPimpl->setLevel(Issue::Level::MESSAGE);
-            issue->mPimpl->setReferenceRule(referenceRule);
-            issue->mPimpl->mItem->mPimpl->setVariable(primaryExternalVariable.first);
-
-            addIssue(issue);
-        }
-    }
-
     // Analyse our different equations' units to make sure that everything is
     // consistent.
 
@@ -2837,6 +2760,94 @@ void Analyser::AnalyserImpl::analyseModel(const ModelPtr &model)
             }
         }
     } while (relevantCheck);
+
+    // Check that the variables that were marked as external were rightly so.
+    // Note: this can only be done now since the primary variable of a computed
+    //       variable is the one in the component in which it is computed,
+    //       something that we only know once our equations have been checked.
+
+    std::map<VariablePtr, VariablePtrs> finalPrimaryExternalVariables;
+
+    for (const auto &trackedExternalVariable : primaryExternalVariables) {
+        auto &variables = finalPrimaryExternalVariables[Analyser::AnalyserImpl::internalVariable(trackedExternalVariable.first)->mVariable];
+
+        variables.insert(variables.end(), trackedExternalVariable.second.begin(), trackedExternalVariable.second.end());
+    }
+
+    for (const auto &primaryExternalVariable : finalPrimaryExternalVariables) {
+        std::string description;
+        auto isVoi = (mModel->mPimpl->mVoi != nullptr)
+                     && (primaryExternalVariable.first == mModel->mPimpl->mVoi->variable());
+        auto equivalentVariableCount = primaryExternalVariable.second.size();
+        auto hasPrimaryVariable = std::find(primaryExternalVariable.second.begin(),
+                                            primaryExternalVariable.second.end(),
+                                            primaryExternalVariable.first)
+                                  != primaryExternalVariable.second.end();
+
+        if (isVoi || (equivalentVariableCount > 1) || !hasPrimaryVariable) {
+            description += (equivalentVariableCount == 2) ? "Both " : "";
+
+            for (size_t i = 0; i < equivalentVariableCount; ++i) {
+                if (i != 0) {
+                    description += (i != equivalentVariableCount - 1) ? ", " : " and ";
+                }
+
+                auto variableString = ((i == 0) && (equivalentVariableCount != 2)) ?
+                                          std::string("Variable") :
+                                          std::string("variable");
+
+                description += variableString + " '" + primaryExternalVariable.second[i]->name()
+                               + "' in component '" + owningComponent(primaryExternalVariable.second[i])->name()
+                               + "'";
+            }
+
+            Issue::ReferenceRule referenceRule;
+
+            if (isVoi) {
+                description += (equivalentVariableCount == 1) ?
+                                   " is marked as an external variable, but it is" :
+                                   " are marked as external variables, but they are";
+
+                if ((equivalentVariableCount == 1) && hasPrimaryVariable) {
+                    description += " the";
+                } else {
+                    description += " equivalent to variable '" + primaryExternalVariable.first->name()
+                                   + "' in component '" + owningComponent(primaryExternalVariable.first)->name()
+                                   + "', the primary";
+                }
+
+                description += " variable of integration which cannot be used as an external variable.";
+
+                referenceRule = Issue::ReferenceRule::ANALYSER_EXTERNAL_VARIABLE_VOI;
+            } else {
+                description += (equivalentVariableCount == 1) ?
+                                   " is marked as an external variable, but it is not a primary variable." :
+                                   " are marked as external variables, but they are";
+                description += (equivalentVariableCount > 2) ? " all" : "";
+                description += (equivalentVariableCount == 1) ? "" : " equivalent.";
+                description += " Variable '" + primaryExternalVariable.first->name()
+                               + "' in component '" + owningComponent(primaryExternalVariable.first)->name()
+                               + "' is";
+                description += hasPrimaryVariable ?
+                                   " the" :
+                               (equivalentVariableCount == 1) ?
+                                   " its corresponding" :
+                                   " their corresponding";
+                description += " primary variable and will therefore be the one used as an external variable.";
+
+                referenceRule = Issue::ReferenceRule::ANALYSER_EXTERNAL_VARIABLE_USE_PRIMARY_VARIABLE;
+            }
+
+            auto issue = Issue::IssueImpl::create();
+
+            issue->mPimpl->setDescription(description);
+            issue->mPimpl->setLevel(Issue::Level::MESSAGE);
+            issue->mPimpl->setReferenceRule(referenceRule);
+            issue->mPimpl->mItem->mPimpl->setVariable(primaryExternalVariable.first);
+
+            addIssue(issue);
+        }
+    }
 
     // Make sure that our variables are valid.
 
